@@ -66,6 +66,7 @@ def c03(ctx):
     n, b = scale(ctx, (2500, 6), (6000, 24))
     sem.trace_batches(ctx, "exact", "MachineTrace_C03.cfg", n, b)
     sem.scale_sem(ctx, "exact", "MachineTrace_C03.cfg", scale(ctx, 1500, 15000))
+    sem.scale_lift(ctx, 500 if ctx.tier == "quick" else 5000, prop="C03")   # sends through allotments of amounts around 2^63 / 2^64 and up to 10^30 move exactly the amount
     sem.family_replay(ctx, "src", "MachineTrace_C03.cfg")
     sem.repo_corpus(ctx, "MachineTrace_C03.cfg")
     return ctx.finish("model_checking", sem.NONTRIV_RULE)
